@@ -289,6 +289,20 @@ impl<'e> Sim<'e> {
             self.last = pre;
             return true;
         }
+        // Known finding (C16, `stale-size-arith`): a panic in a size estimate inside `mutate` leaves the
+        // entry's recorded size different from its real size (the property allows that), and a later
+        // mutate of that entry then computes `recorded + growth` / `recorded - shrinkage`, which
+        // overflows when the real sizes alone would not.  Builds with overflow checks panic, plain
+        // release builds wrap and corrupt the accounting.  The signature is decided BEFORE the
+        // operation runs, from the observed pre-state and the operation's arguments alone.
+        let stale_arith = match (&self.relaxed, &op.kind, op.fuse) {
+            (Some(Relax::Panic { .. }), OpKind::Mutate { k, vh, panic: ClosurePanic::No, .. }, None) => pre[t]
+                .as_ref()
+                .and_then(|o| o.entries.iter().find(|e| e.id == *k))
+                .map(|e| e.recorded != e.size && if *vh > e.vheap { e.recorded.checked_add(*vh - e.vheap).is_none() } else { e.recorded < e.vheap - *vh })
+                .unwrap_or(false),
+            _ => false,
+        };
         begin_step();
         let t0 = n_tokens() as u32;
         let refused0 = alloc::refused_count();
@@ -315,6 +329,18 @@ impl<'e> Sim<'e> {
         self.last_pred_calls = events.iter().filter(|e| e.kind == EV_PRED).count() as u32;
         self.last_closure_calls = events.iter().filter(|e| e.kind == EV_CLOSURE).count() as u32;
         self.steps += 1;
+        if stale_arith {
+            let fp = self.fault_prop;
+            let how = match &outcome {
+                Outcome::Panicked { injected: None, msg } => format!("the cache's own code panicked: {}", msg),
+                _ => "the arithmetic wrapped silently".to_string(),
+            };
+            self.push(fp, "stale-size-arith", format!("mutate of an entry whose recorded size is stale after an earlier panic in a size estimate: recorded size +/- the change of the value's size is not representable although the real sizes are; {}", how));
+            self.probes.hit("stale_size_arithmetic_after_fault");
+            self.stop = true;
+            clear_events();
+            return false;
+        }
         if op.fuse.is_some() && !fired {
             self.fault_unfired = true;
         }
